@@ -15,8 +15,15 @@
    not.  Not proved here: window clipping (C11; C20_draw_* only show that every write is a
    Window.SetCell inside the image's own cell rectangle; C20_placement_inside_window shows that
    a kitty/sixel placement is only made into a window that holds it), and the encoders behind
-   kitty/sixel (PNG, go-sixel, octreequant) and x/image/draw's scaler, which are oracles. *)
-From Vx Require Import base.Prelude model.Image proofs.ImageProofs.
+   kitty/sixel (PNG, go-sixel, octreequant) and x/image/draw's scaler, which are oracles.
+
+   Image OBJECTS (model/ImageHist.v: the fields of HalfBlockImage / FullBlockImage / KittyImage /
+   Sixel that survive between calls, step : state -> op -> state * observation): the theorems of the
+   last two sections hold for ALL histories of Resize / Draw (Show) / Destroy on one object, boxes
+   in [0, 2^24) (0 = an empty box).  A Show of a KittyImage that has no current picture is the
+   guarded finding kitty-no-encoding (C20_kitty_no_encoding_refuted).  The encoder goroutine of
+   KittyImage / Sixel is modelled as finished before the next call (the harness waits for it). *)
+From Vx Require Import base.Prelude model.Image model.ImageHist proofs.ImageProofs proofs.ImageHistProofs.
 
 (* ---------------------------------------------------------------- resizing *)
 
@@ -235,6 +242,136 @@ Theorem C20_placement_frames : forall ops, length (run_ops g_init ops) = length 
 Proof. exact run_ops_length. Qed.
 Print Assumptions C20_placement_frames.
 
+(* ---------------------------------------------------------------- block image objects, all histories *)
+
+(* No stale state: after ANY history of Resize / Draw / Destroy on a new HalfBlockImage (kind 0) or
+   FullBlockImage (kind 1) the object is in the state the last Resize alone (followed by Destroy,
+   when one came after it) leaves a new object in.  bsum ops = (box of the last Resize, Destroy
+   since), bsum_ops = the history of at most two calls with that summary. *)
+Theorem C20_block_history_independent : forall kind src ops s,
+  block_exec kind src b_new ops = Some s ->
+  block_exec kind src b_new (bsum_ops (bsum ops)) = Some s.
+Proof. exact block_history_independent. Qed.
+Print Assumptions C20_block_history_independent.
+
+(* ... so what a Draw shows after any history is block_shown: the cells of the picture resizeImage
+   makes from the source for the box of the LAST Resize, cut to the window - nothing when there was
+   no Resize or a Destroy came after it - and Draw does not panic. *)
+Theorem C20_block_draw_after_history : forall kind src ops s ww wh,
+  kind = 0 \/ kind = 1 -> src_ok src = true -> forallb bop_ok ops = true ->
+  block_exec kind src b_new ops = Some s ->
+  exists dr, block_shown kind src (bsum ops) ww wh = Some dr /\
+             block_step kind src s (BDraw ww wh) = Some (s, (0, b_width s, b_height s, empty_image, dr)).
+Proof. exact block_draw_after_history. Qed.
+Print Assumptions C20_block_draw_after_history.
+
+(* CellSize() after any history is the cell size of the last Resize: inside its box (0 x 0 for an
+   empty box) and never more cells than the source covers *)
+Theorem C20_block_cell_size_after_history : forall kind src ops s w h,
+  src_ok src = true -> box_ok w h = true ->
+  block_exec kind src b_new ops = Some s -> fst (bsum ops) = Some (w, h) ->
+  0 <= b_width s <= w /\ 0 <= b_height s <= h /\
+  b_width s <= iw src /\ b_height s <= (ih src + 1) / 2 /\
+  block_cell_size (iw src) (ih src) w h = Some (b_width s, b_height s).
+Proof. exact block_cell_size_after_history. Qed.
+Print Assumptions C20_block_cell_size_after_history.
+
+Theorem C20_block_cell_size_no_resize : forall kind src ops s,
+  block_exec kind src b_new ops = Some s -> fst (bsum ops) = None -> b_width s = 0 /\ b_height s = 0.
+Proof. exact block_cell_size_no_resize. Qed.
+Print Assumptions C20_block_cell_size_no_resize.
+
+(* Destroy, then Draw: whatever the object was, nothing is drawn and nothing panics *)
+Theorem C20_block_destroy_then_draw : forall kind src s ww wh,
+  exists s', block_step kind src s BDestroy = Some (s', (0, b_width s, b_height s, empty_image, [])) /\
+             block_step kind src s' (BDraw ww wh) = Some (s', (0, b_width s, b_height s, empty_image, [])).
+Proof. exact block_destroy_then_draw. Qed.
+Print Assumptions C20_block_destroy_then_draw.
+
+(* The model satisfies the predicate the differential run applies to the implementation
+   (c20_blockhist_violations), on every history: no call panics; every Resize reports the cells of a
+   picture that is the source or a nearest-neighbour sample of it, inside the box, not upscaled,
+   aspect kept; every Draw changes exactly the cells of that rectangle that lie in the window, each
+   showing the colours of its two pixels of the picture of the CURRENT size (default colour for
+   transparent ones); nothing is drawn before the first Resize or after Destroy. *)
+Theorem C20_block_model_ok : forall kind src ops obs,
+  kind = 0 \/ kind = 1 -> src_ok src = true -> forallb bop_ok ops = true ->
+  block_run kind src b_new ops = Some obs ->
+  blockhist_ok kind src bspec0 (combine ops obs) = true.
+Proof. exact block_model_ok_new. Qed.
+Print Assumptions C20_block_model_ok.
+
+(* ... and in that domain every history runs (None, "not modelled", does not occur) *)
+Theorem C20_block_run_total : forall kind src ops s,
+  src_ok src = true -> forallb bop_ok ops = true -> exists obs, block_run kind src s ops = Some obs.
+Proof. intros kind src ops s Hs OK. exact (block_run_total kind src Hs ops s OK). Qed.
+Print Assumptions C20_block_run_total.
+
+(* a box without columns or lines gives an empty picture, for every cell geometry *)
+Theorem C20_empty_box : forall wPix hPix w h cw ch,
+  0 < wPix -> 0 < hPix -> 0 < cw -> 0 < ch -> 0 <= w -> 0 <= h -> w = 0 \/ h = 0 ->
+  resize_dims wPix hPix w h cw ch = RDims 0 0.
+Proof. exact resize_dims_empty_box. Qed.
+Print Assumptions C20_empty_box.
+
+(* ---------------------------------------------------------------- kitty / sixel objects, all histories *)
+
+(* CellSize() after any history of Resize / Show / Destroy on a new KittyImage (kind 2) or Sixel
+   (kind 3) is the cell size of the last Resize; for a box of at least one cell it lies inside the
+   box and does not exceed the cells of the source *)
+Theorem C20_gfx_cell_size_after_history : forall kind wPix hPix cw ch ops g w h,
+  geom_ok wPix hPix cw ch = true -> forallb hop_ok ops = true ->
+  gfx_exec kind wPix hPix cw ch gworld0 ops = Some g -> last_box None ops = Some (w, h) ->
+  kitty_cell_size wPix hPix w h cw ch = Some (o_w (g_obj g), o_h (g_obj g)) /\
+  (0 < w -> 0 < h ->
+   0 <= o_w (g_obj g) <= w /\ 0 <= o_h (g_obj g) <= h /\
+   o_w (g_obj g) <= ceil_div wPix cw /\ o_h (g_obj g) <= ceil_div hPix ch).
+Proof. exact gfx_cell_size_after_history_new. Qed.
+Print Assumptions C20_gfx_cell_size_after_history.
+
+(* Full statement wanted: forall histories, gfxhist_ok (the predicate of c20_gfxhist_violations:
+   an image with a current picture whose cells fit the window is placed once at the window's origin
+   and the terminal then shows exactly the picture of the LAST Resize; its data are transmitted when
+   the terminal does not hold them, at most once, never while nothing was resized; otherwise nothing
+   is placed or sent; the placement of the frame before is deleted on the refresh; Destroy deletes
+   the image).  It is false for a KittyImage shown while it has no current picture
+   (C20_kitty_no_encoding_refuted).  Proved: it holds for every history outside that guard ... *)
+Theorem C20_gfx_model_ok_guarded : forall kind wPix hPix cw ch ops obs,
+  kind = 2 \/ kind = 3 -> geom_ok wPix hPix cw ch = true -> forallb hop_ok ops = true ->
+  gfx_run kind wPix hPix cw ch gworld0 ops = Some obs ->
+  no_encoding_guard kind false (combine ops obs) = false ->
+  gfxhist_ok kind wPix hPix cw ch hspec0 (combine ops obs) = true.
+Proof. exact gfx_model_ok_new. Qed.
+Print Assumptions C20_gfx_model_ok_guarded.
+
+(* ... and for a Sixel without any guard *)
+Theorem C20_sixel_model_ok : forall wPix hPix cw ch ops obs,
+  geom_ok wPix hPix cw ch = true -> forallb hop_ok ops = true ->
+  gfx_run 3 wPix hPix cw ch gworld0 ops = Some obs ->
+  gfxhist_ok 3 wPix hPix cw ch hspec0 (combine ops obs) = true.
+Proof. exact sixel_model_ok_new. Qed.
+Print Assumptions C20_sixel_model_ok.
+
+Theorem C20_gfx_run_total : forall kind wPix hPix cw ch ops g,
+  geom_ok wPix hPix cw ch = true -> forallb hop_ok ops = true ->
+  exists obs, gfx_run kind wPix hPix cw ch g ops = Some obs.
+Proof. intros kind wPix hPix cw ch ops g G OK. exact (gfx_run_total kind wPix hPix cw ch G ops g OK). Qed.
+Print Assumptions C20_gfx_run_total.
+
+(* The finding kitty-no-encoding: a 20x40 pixel image, cells of 8x16 pixels.  Resize(3,3), Show:
+   placed, 20x40 transmitted.  Resize(0,2) makes an empty picture (CellSize 0x0): png.Encode fails,
+   uploaded stays true.  Show: KittyImage.Draw places it all the same (a 0x0 placement fits every
+   window) and the terminal shows the 20x40 picture of the Resize before. *)
+Theorem C20_kitty_no_encoding_refuted :
+  let ops := [HResize 3 3; HShow 10 5; HResize 0 2; HShow 10 5] in
+  let obs := [(0, 3, 3, 20, 40, 0, 0, 0, 0, 0); (0, 3, 3, 0, 0, 1, 1, 20, 40, 1);
+              (0, 0, 0, 0, 0, 0, 0, 0, 0, 0); (0, 0, 0, 1, 0, 1, 0, 20, 40, 0)] in
+  gfx_run 2 20 40 8 16 gworld0 ops = Some obs /\
+  gfxhist_ok 2 20 40 8 16 hspec0 (combine ops obs) = false /\
+  no_encoding_guard 2 false (combine ops obs) = true.
+Proof. vm_compute. repeat split; reflexivity. Qed.
+Print Assumptions C20_kitty_no_encoding_refuted.
+
 (* ---------------------------------------------------------------- non-vacuity *)
 
 (* the confirmed defect's input (4x4 pixels, cells of 1x2, box 2x1: both factors 1/2) now scales *)
@@ -269,3 +406,32 @@ Proof. vm_compute. reflexivity. Qed.
 Example C20_example_half_block :
   hb_cell (255 * 257, 0, 0, 65535) (0, 0, 0, 49 * 257) = (g_upper, rgb_color 255 0 0, 0).
 Proof. vm_compute. reflexivity. Qed.
+
+(* block objects: a 4x4 picture (blue over red, right half transparent) as a FullBlockImage; a
+   history in the domain with a shrinking Resize, a Destroy and a cut window.  After Resize(2,1) the
+   right cell is the default colour (not the blue the 4x2 encoding had at that index). *)
+Example C20_example_block_history :
+  let blue : px := (0, 0, 65535, 65535) in let red : px := (65535, 0, 0, 65535) in let clear : px := (0, 0, 0, 0) in
+  let src := {| iw := 4; ih := 4; irows := [[blue; blue; clear; clear]; [blue; blue; clear; clear];
+                                            [red; red; clear; clear]; [red; red; clear; clear]] |} in
+  let ops := [BResize 4 2; BDraw 4 2; BResize 2 1; BDraw 2 1; BDestroy; BDraw 2 1; BResize 2 1; BDraw 1 1] in
+  src_ok src = true /\ forallb bop_ok ops = true /\
+  option_map (map (fun o : bobs => snd o)) (block_run 1 src b_new ops) =
+  Some [[]; [(0, 0, (32, 0, 33554687)); (1, 0, (32, 0, 33554687)); (2, 0, (32, 0, 0)); (3, 0, (32, 0, 0));
+             (0, 1, (32, 0, 50266112)); (1, 1, (32, 0, 50266112)); (2, 1, (32, 0, 0)); (3, 1, (32, 0, 0))];
+        []; [(0, 0, (32, 0, 41877631)); (1, 0, (32, 0, 0))]; []; []; []; [(0, 0, (32, 0, 41877631))]] /\
+  bsum ops = (Some (2, 1), false).
+Proof. vm_compute. repeat split; reflexivity. Qed.
+
+(* kitty objects: the guard of C20_gfx_model_ok_guarded is satisfiable; data are sent once per
+   picture, not again while unchanged, again after Destroy *)
+Example C20_example_gfx_history :
+  let ops := [HResize 3 3; HShow 10 5; HShow 10 5; HResize 2 2; HShow 1 1; HShow 2 2; HDestroy; HResize 2 2; HShow 4 4] in
+  geom_ok 20 40 8 16 = true /\ forallb hop_ok ops = true /\
+  match gfx_run 2 20 40 8 16 gworld0 ops with
+  | Some obs => no_encoding_guard 2 false (combine ops obs) = false /\
+                map (fun o : hobs => let '(_, _, _, _, _, placed, sent, _, _, _) := o in (placed, sent)) obs =
+                [(0, 0); (1, 1); (1, 0); (0, 0); (0, 0); (1, 1); (1, 0); (0, 0); (1, 1)]
+  | None => False
+  end.
+Proof. vm_compute. repeat split; reflexivity. Qed.
